@@ -53,10 +53,15 @@ Vals == {"", "1", "2"}
 QOne(i, v) == [j \in QI |-> IF j = i THEN v ELSE ""]
 QSingle(S) == {Q0} \cup {QOne(i, v) : i \in S, v \in {"1", "2"}}
 QAll(S) == {qm \in [QI -> Vals] : \A j \in QI \ S : qm[j] = ""}
-EDabs == [present |-> FALSE, ovr |-> FALSE, quals |-> Q0, xquals |-> Q0]
-ED(o, qm, xm) == [present |-> TRUE, ovr |-> o, quals |-> qm, xquals |-> xm]
+EDabs == [present |-> FALSE, ovr |-> FALSE, quals |-> Q0, xquals |-> Q0,
+          fl |-> FL0, xfl |-> FL0, pars |-> ""]
+ED(o, qm, xm) == [present |-> TRUE, ovr |-> o, quals |-> qm, xquals |-> xm,
+                  fl |-> FL0, xfl |-> FL0, pars |-> "x"]
 Decl(cq, p, q, m) ==
-  [cq |-> cq, el |-> [k |-> EDabs, p |-> p, q |-> q, m |-> m]]
+  [cq |-> cq, cfl |-> FL0, el |-> [k |-> EDabs, p |-> p, q |-> q, m |-> m]]
+(* explicit flavors on a qualifier use: all 9 combinations *)
+FlTokens == {<<ts, ov>> : ts \in {"", "T", "R"}, ov \in {"", "E", "D"}}
+FlOne(i, f) == [j \in QI |-> IF j = i THEN f ELSE NoFl]
 Shapes == {EDabs, ED(FALSE, Q0, Q0), ED(TRUE, Q0, Q0)}
 
 DeclU(S) ==
@@ -67,6 +72,33 @@ DeclU(S) ==
     [] Mode = "propq" ->     \* one property, every value of the qualifiers S
          {Decl(Q0, p, EDabs, EDabs) :
             p \in {EDabs} \cup {ED(o, qm, Q0) : o \in BOOLEAN, qm \in QAll(S)}}
+    [] Mode = "propfl" ->    \* one property, one qualifier of S, every value,
+                             \* every explicit flavor on the use
+         {Decl(Q0, p, EDabs, EDabs) :
+            p \in {EDabs} \cup
+                 {[ED(o, QOne(i, v), Q0) EXCEPT !.fl = FlOne(i, f)] :
+                    o \in BOOLEAN, i \in S, v \in {"1", "2"}, f \in FlTokens}
+                 \cup {ED(o, Q0, Q0) : o \in BOOLEAN}}
+    [] Mode = "methfl" ->    \* the same on the method and on its parameter
+         {Decl(Q0, EDabs, EDabs, m) :
+            m \in {EDabs} \cup
+                 {[ED(TRUE, QOne(i, v), Q0) EXCEPT !.fl = FlOne(i, f)] :
+                    i \in S, v \in {"1", "2"}, f \in FlTokens}
+                 \cup {[ED(TRUE, Q0, QOne(i, v)) EXCEPT !.xfl = FlOne(i, f)] :
+                    i \in S, v \in {"1", "2"}, f \in FlTokens}
+                 \cup {ED(TRUE, Q0, Q0)}}
+    [] Mode = "parfl" ->     \* flavors on the qualifiers of the parameter only
+         {Decl(Q0, EDabs, EDabs, m) :
+            m \in {EDabs, ED(TRUE, Q0, Q0)} \cup
+                 {[ED(TRUE, Q0, QOne(i, v)) EXCEPT !.xfl = FlOne(i, f)] :
+                    i \in S, v \in {"1", "2"}, f \in FlTokens}}
+    [] Mode = "sig" ->       \* parameter lists of overriding methods
+         {Decl(Q0, EDabs, EDabs, m) :
+            m \in {EDabs} \cup
+                 {[ED(o, Q0, Q0) EXCEPT !.pars = ps] :
+                    o \in BOOLEAN, ps \in {"x", "xy", "y", ""}}
+                 \cup {[ED(o, Q0, QOne(1, "1")) EXCEPT !.pars = ps] :
+                    o \in BOOLEAN, ps \in {"x", "xy"}}}
     [] Mode = "clsq" ->      \* class-level qualifiers
          {Decl(qm, EDabs, EDabs, EDabs) : qm \in QAll(S)}
     [] Mode = "methq" ->     \* method and parameter qualifiers
@@ -80,13 +112,15 @@ DeclU(S) ==
             m \in {EDabs, ED(FALSE, Q0, Q0)}}
 
 (* root classes declare the key property k *)
-KeyED == ED(FALSE, QOne(4, "1"), Q0)
+KeyED == [ED(FALSE, QOne(4, "1"), Q0) EXCEPT !.pars = ""]
 WithKey(sup, d) == IF sup = "" THEN [d EXCEPT !.el.k = KeyED] ELSE d
 
 (*---------------------------- events --------------------------------------*)
 MutEv(op, via, c, sup, d, r) ==
   [op |-> op, via |-> via, name |-> c, super |-> sup, d |-> d,
-   ok |-> r.ok, code |-> r.code, kind |-> IF r.ok THEN "ok" ELSE "cimerror"]
+   ok |-> r.ok, code |-> r.code,
+   kind |-> IF r.ok THEN "ok" ELSE IF r.code = E_PYERROR
+            THEN "pyerror-AttributeError" ELSE "cimerror"]
 GetEv(c, lo, iq, ico, hp, pl) ==
   [op |-> "Get", name |-> c, lo |-> lo, iq |-> iq, ico |-> ico, hp |-> hp,
    pl |-> pl, ok |-> TRUE, code |-> 0,
@@ -110,7 +144,7 @@ Init == /\ store = <<>> /\ ii = {} /\ s = InitState /\ bad = {}
 
 Log(c) == hist' = IF GenDepth > 0 THEN Append(hist, c) ELSE hist
 
-Create(c, sup, d, via) ==
+Create(c, sup, d, via, h) ==
   /\ c \notin DOMAIN store
   /\ LET r == ImplResolve(store, c, sup, d, via)
          e == MutEv("Create", via, c, sup, d, r) IN
@@ -118,10 +152,10 @@ Create(c, sup, d, via) ==
      /\ bad' = JudgeHard(s, e)
      /\ s' = ApplyOp(s, e)
      /\ Log([op |-> "Create", via |-> via, name |-> c, super |-> sup, d |-> d,
-             key |-> 0])
+             key |-> 0, obj |-> h])
   /\ UNCHANGED <<ii, qsel>>
 
-Modify(c, d, via) ==
+Modify(c, d, via, h) ==
   /\ c \in DOMAIN store
   /\ LET sup == store[c].super
          r == IF ~AllowModifyBusy /\ ImplChildren(store, c) # {}
@@ -134,7 +168,7 @@ Modify(c, d, via) ==
      /\ bad' = JudgeHard(s, e)
      /\ s' = ApplyOp(s, e)
      /\ Log([op |-> "Modify", via |-> via, name |-> c, super |-> sup, d |-> d,
-             key |-> 0])
+             key |-> 0, obj |-> h])
   /\ UNCHANGED <<ii, qsel>>
 
 Delete(c) ==
@@ -148,7 +182,7 @@ Delete(c) ==
      /\ bad' = JudgeHard(s, e)
      /\ s' = ApplyOp(s, e)
      /\ Log([op |-> "Delete", via |-> "", name |-> c, super |-> "", d |-> Decl(Q0, EDabs, EDabs, EDabs),
-             key |-> 0])
+             key |-> 0, obj |-> 0])
   /\ UNCHANGED qsel
 
 CreateInst(c, key) ==
@@ -157,16 +191,16 @@ CreateInst(c, key) ==
   /\ s' = ApplyOp(s, [op |-> "CreateInst", name |-> c, key |-> key, ok |-> TRUE])
   /\ bad' = {}
   /\ Log([op |-> "CreateInst", via |-> "", name |-> c, super |-> "", d |-> Decl(Q0, EDabs, EDabs, EDabs),
-          key |-> key])
+          key |-> key, obj |-> 0])
   /\ UNCHANGED <<store, qsel>>
 
 ExhNext ==
   /\ GenDepth = 0
   /\ \/ \E c \in Classes, d \in DeclU(qsel), via \in Vias :
-           Create(c, Parent[c], WithKey(Parent[c], d), via)
+           Create(c, Parent[c], WithKey(Parent[c], d), via, 0)
      \/ /\ WithModify
         /\ \E c \in Classes, d \in DeclU(qsel), via \in Vias :
-              c \in DOMAIN store /\ Modify(c, WithKey(store[c].super, d), via)
+              c \in DOMAIN store /\ Modify(c, WithKey(store[c].super, d), via, 0)
      \/ \E c \in Classes : Delete(c)
      \/ \E c \in Classes, k \in InstKeys : CreateInst(c, k)
 
@@ -175,29 +209,57 @@ ExhNext ==
 RndVal(z) == <<"", "", "", "1", "1", "2">>[RandomElement(1..6)]
 RndQ(z) == <<RndVal(z), RndVal(z), RndVal(z), "">>
 Chance(k) == RandomElement(1..10) <= k
+(* explicit flavors on about a third of the given qualifiers (never Key) *)
+RndFl1(v) == IF v = "" \/ ~Chance(3) THEN NoFl
+             ELSE << <<"", "T", "R", "R">>[RandomElement(1..4)],
+                     <<"", "E", "D", "D">>[RandomElement(1..4)] >>
+RndFl(qm) == <<RndFl1(qm[1]), RndFl1(qm[2]), RndFl1(qm[3]), NoFl>>
+RndPars(z) == <<"x", "x", "x", "x", "x", "x", "x", "xy", "y", "">>[RandomElement(1..10)]
 RndED(inh, isM) ==
   IF ~Chance(6) THEN EDabs
-  ELSE ED(IF Chance(8) THEN inh ELSE ~inh, RndQ(1), IF isM THEN RndQ(2) ELSE Q0)
+  ELSE LET qm == RndQ(1)
+           ps == IF isM THEN RndPars(1) ELSE ""
+           xm == IF isM /\ HasX(ps) THEN RndQ(2) ELSE Q0 IN
+       [present |-> TRUE, ovr |-> IF Chance(8) THEN inh ELSE ~inh,
+        quals |-> qm, xquals |-> xm, fl |-> RndFl(qm), xfl |-> RndFl(xm),
+        pars |-> ps]
 RECURSIVE Depth(_, _)
 Depth(st, c) == IF c = "" \/ c \notin DOMAIN st THEN 0 ELSE 1 + Depth(st, st[c].super)
 InhIn(st, sup, e) == sup \in DOMAIN st /\ st[sup].el[e].present
 RndDecl(st, sup) ==
-  [cq |-> RndQ(0),
+  LET cq == RndQ(0) IN
+  [cq |-> cq, cfl |-> RndFl(cq),
    el |-> [k |-> IF sup = "" \/ sup \notin DOMAIN st THEN KeyED ELSE EDabs,
            p |-> RndED(InhIn(st, sup, "p"), FALSE),
            q |-> RndED(InhIn(st, sup, "q"), FALSE),
            m |-> RndED(InhIn(st, sup, "m"), TRUE)]]
+(* client objects: the handle of an object is the index of the call that    *)
+(* built it; its content is the d of the last call/edit that names it       *)
+IsObjCall(j) == hist[j].obj # 0
+ObjD(h) == hist[Max({j \in DOMAIN hist : hist[j].obj = h})].d
 GenNext ==
   /\ GenDepth > 0
   /\ \/ \E c \in Classes, sup \in (DOMAIN store) \cup {"", "Ghost"} :
            /\ Depth(store, sup) < 4
            /\ sup # "Ghost" \/ Chance(1)
            /\ \E d \in {RndDecl(store, sup)}, via \in {"api", "mof"} :
-                 Create(c, sup, d, via)
+                 Create(c, sup, d, via, IF via = "api" THEN Len(hist) + 1 ELSE 0)
      \/ \E c \in DOMAIN store :
            /\ Chance(5)
            /\ \E d \in {RndDecl(store, store[c].super)}, via \in {"api", "mof"} :
-                 Modify(c, d, via)
+                 Modify(c, d, via, IF via = "api" THEN Len(hist) + 1 ELSE 0)
+     \/ \E j \in DOMAIN hist :        \* the same client object is passed again
+           /\ IsObjCall(j) /\ hist[j].name \in DOMAIN store
+           /\ store[hist[j].name].super = hist[j].super
+           /\ Modify(hist[j].name, ObjD(hist[j].obj), "api", hist[j].obj)
+     \/ \E j \in DOMAIN hist :        \* the client edits an object it passed
+           /\ IsObjCall(j) /\ hist[j].op # "ClientEdit" /\ Chance(5)
+           /\ hist' = Append(hist,
+                 [op |-> "ClientEdit", via |-> "", name |-> hist[j].name,
+                  super |-> hist[j].super,
+                  d |-> RndDecl(store, hist[j].super), key |-> 0,
+                  obj |-> hist[j].obj])
+           /\ UNCHANGED <<store, ii, s, bad, qsel>>
      \/ \E c \in DOMAIN store : Chance(2) /\ Delete(c)
      \/ \E c \in DOMAIN store, k \in InstKeys : Chance(4) /\ CreateInst(c, k)
 
